@@ -6,10 +6,11 @@ import os
 HERE = os.path.dirname(os.path.dirname(os.path.abspath(__file__)))
 
 NA = {
-    "C01": "Whole-program claim about map_workload_to_arch: template generation, numpy enumeration, pandas joins and process pools cannot be executed on symbols; its solver-decidable lemmas are decided under C08, C10, C11.",
+    "C01": "Whole-program claim about map_workload_to_arch: template generation, numpy enumeration, pandas joins and process pools cannot be executed on symbols; its solver-decidable lemmas are decided under C07, C09, C10, C11.",
     "C02": "Front of a full mapper run (pandas/numba/joblib); the dominance kernel it rests on is decided under C11.",
     "C03": "Needs the returned LoopTrees of concrete mapper runs re-derived; inputs are whole specs, no symbolic domain survives pandas _numeric_cast.",
     "C04": "Compares joined pandas totals with a second concrete model run; symbols cannot pass PmappingDataframe.",
+    "C08": "Planned (DESIGN.md section 5) but not built: the per-stage pruning obligations need an invariant describing which partial tile assignments are still alive; without it the solver returns row pairs no run compares, and I could not make the check sound and quiet on the unchanged tree in the time available. Its inputs are decided under C07 (formulas), C09 (verdicts), C10 (candidates) and C11 (filter).",
     "C12": "makepareto is pandas + np.log/np.exp/np.round on float arrays; a solver model of the rounding would verify the model, not the code; the zero-tolerance dominance core is decided under C11.",
     "C13": "join_pmappings/merge_next are pandas merges over dynamically named float columns; no route keeps symbols through them.",
     "C14": "Equality of two full staged joins (pandas, thresholds, retries); only isolated lemmas are encodable and do not entail the property.",
